@@ -947,3 +947,259 @@ Definition alloc_sites (host : Z) (dims : list dim) (mult : Z) (hr : hrconf) (sc
     mkAlloc "scripted vector x.resize(size)" (r_state sc) (negb (r_err sc));
     mkAlloc "calc_acf histories acf_stride*(acf_length+acf_offset+1)"
             (s_cfstride (r_state cv) * (s_cflen (r_state cv) + s_cfoff (r_state cv) + 1)) (negb (r_err cv) && s_corr (r_state cv)) ].
+
+(* ------------------------------------------------------------------------------------------------ *)
+(* Module-level state touched by a configuration before it is rejected                               *)
+(* ------------------------------------------------------------------------------------------------ *)
+
+(* Everything that survives parse_config() other than the object lists themselves:
+     - the index-group registry (index_group_names / index_groups), filled by cvm::read_index_file() from
+       parse_global_params(), read by atom_group::add_index_group() (`indexGroup <name>`) and by the listing printed
+       at the end of every successful read_index_file();
+     - the named atom groups (named_atom_groups; `name <g>` inside a group, read by `atomsOfGroup <g>`);
+     - the per-type counters of parse_biases_type (num_biases_types_used), from which default bias names are made;
+     - the values set by module-level keywords (colvarsTrajFrequency, colvarsRestartFrequency);
+     - which variables are active (f_cv_active): a bias holds a reference on its variables, and releasing the last
+       reference switches the variable off;
+     - extra_conf (modelled above: parse_config_ext).
+   Not modelled because no later configuration or step can observe them: the citation counters (usage_), the log
+   indentation depth, the list of index file NAMES (script command listindexfiles only). *)
+
+(* An index file, token by token.  [IAtom z] with z <= 0 is read as text, like any other word. *)
+Inductive itok := IHdr (n : string) | IBadHdr | IAtom (z : Z) | IText.
+
+(* group name -> atoms; None is a NULL pointer in index_groups (never present after the repairs) *)
+Definition registry := list (string * option (list Z)).
+
+(* how read_index_file leaves the registry when it rejects the file:
+   IvRollback: the groups the file added are removed again (repaired code);
+   IvKeep: they stay, the last one truncated (before the repair);
+   IvNull: the truncated group is deleted and its pointer set to NULL while its name stays (seeded change C10_4) *)
+Inductive ivariant := IvRollback | IvKeep | IvNull.
+
+Fixpoint reg_lookup (n : string) (r : registry) : option (option (list Z)) :=
+  match r with
+  | [] => None
+  | (m, v) :: t => if String.eqb n m then Some v else reg_lookup n t
+  end.
+
+Fixpoint reg_set (n : string) (v : option (list Z)) (r : registry) : registry :=
+  match r with
+  | [] => []
+  | (m, w) :: t => if String.eqb n m then (m, v) :: t else (m, w) :: reg_set n v t
+  end.
+
+Fixpoint zlist_eqb (a b : list Z) : bool :=
+  match a, b with
+  | [], [] => true
+  | x :: a', y :: b' => (x =? y) && zlist_eqb a' b'
+  | _, _ => false
+  end.
+
+(* while ((is >> atom_number) && (atom_number > 0)) push_back *)
+Fixpoint take_atoms (ts : list itok) : list Z * list itok :=
+  match ts with
+  | IAtom z :: r => if 0 <? z then let '(a, rest) := take_atoms r in (z :: a, rest) else ([], ts)
+  | _ => ([], ts)
+  end.
+
+(* after the atoms of group [n]: the end of the file, the next header (the loop goes on: [rec]), or an error *)
+Definition after_group (v : ivariant) (rec : list itok -> registry -> registry * bool) (n : string) (rest : list itok)
+           (r1 : registry) : registry * bool :=
+  match rest with
+  | [] => (r1, false)
+  | IHdr _ :: _ => rec rest r1
+  | IBadHdr :: _ => rec rest r1
+  | _ => (match v with IvNull => reg_set n None r1 | _ => r1 end, true)             (* unexpected text *)
+  end.
+
+(* the loop of read_index_file: a header, the atoms, then see above *)
+Fixpoint read_loop (v : ivariant) (fuel : nat) (ts : list itok) (r : registry) : registry * bool :=
+  match fuel with
+  | O => (r, true)
+  | S f =>
+      match ts with
+      | IHdr n :: ts1 =>
+          match reg_lookup n r with
+          | Some (Some old) => if zlist_eqb old (fst (take_atoms ts1)) then after_group v (read_loop v f) n (snd (take_atoms ts1)) r
+                               else (r, true)                                        (* "was redefined" *)
+          | Some None => after_group v (read_loop v f) n (snd (take_atoms ts1)) (reg_set n (Some (fst (take_atoms ts1))) r)
+          | None => after_group v (read_loop v f) n (snd (take_atoms ts1)) (r ++ [(n, Some (fst (take_atoms ts1)))])
+          end
+      | _ => (r, true)                                                               (* no well-formed header *)
+      end
+  end.
+
+Definition reg_has_null (r : registry) : bool := existsb (fun e => match snd e with None => true | Some _ => false end) r.
+
+(* read_index_file: (registry, rejected, crashed).  The listing at the end of an accepted file dereferences every
+   pointer of the registry. *)
+Definition read_index_file (v : ivariant) (ts : list itok) (r : registry) : registry * bool * bool :=
+  let '(r1, e) := read_loop v (S (List.length ts)) ts r in
+  if e then (match v with IvRollback => r | _ => r1 end, true, false)
+  else (r1, false, reg_has_null r1).
+
+(* atom_group::add_index_group: not found = error; found = *(index_groups[i]) *)
+Inductive group_use := GUError | GUCrash | GUAtoms (l : list Z).
+Definition add_index_group (n : string) (r : registry) : group_use :=
+  match reg_lookup n r with
+  | None => GUError
+  | Some None => GUCrash
+  | Some (Some l) => GUAtoms l
+  end.
+
+(* an atom group of a variable: optional `name`, and where its atoms come from *)
+Inductive gsrc := GNumbers | GIndex (n : string) | GOfGroup (n : string).
+Record gdesc := mkGd { gd_name : option string; gd_src : gsrc }.
+Record cvdesc := mkCvd { cvd_name : string; cvd_fails : bool (* a validation error of its own *); cvd_groups : list gdesc }.
+Record biasdesc := mkBd { bd_type : string; bd_name : option string; bd_cvs : list string; bd_fails : bool }.
+
+Record modst := mkModst {
+  q_cvs : list string;
+  q_biases : list (string * string * list string);        (* name, type, variables *)
+  q_reg : registry;
+  q_named : list (string * string);                       (* group name, owning variable *)
+  q_counters : list (string * Z);                         (* bias type -> number of blocks initialised so far *)
+  q_traj : Z; q_restart : Z;
+  q_active : list string;
+  q_err : bool;
+  q_crash : bool }.
+
+Record config6 := mkCfg6 {
+  c6_traj : option tok; c6_restart : option tok;
+  c6_files : list (option (list itok));                   (* None: the file cannot be opened *)
+  c6_cvs : list cvdesc;
+  c6_biases : list (list biasdesc) }.                     (* by type, in the order of parse_biases *)
+
+Definition set_err (e : bool) (s : modst) : modst :=
+  mkModst (q_cvs s) (q_biases s) (q_reg s) (q_named s) (q_counters s) (q_traj s) (q_restart s) (q_active s) (q_err s || e) (q_crash s).
+Definition set_crash (c : bool) (s : modst) : modst :=
+  mkModst (q_cvs s) (q_biases s) (q_reg s) (q_named s) (q_counters s) (q_traj s) (q_restart s) (q_active s) (q_err s) (q_crash s || c).
+Definition set_reg (r : registry) (s : modst) : modst :=
+  mkModst (q_cvs s) (q_biases s) r (q_named s) (q_counters s) (q_traj s) (q_restart s) (q_active s) (q_err s) (q_crash s).
+
+(* parse_global_params: every indexFile in turn (an error does not stop the loop), then the scalar keywords; a
+   value that cannot be read is an error and leaves the variable unchanged *)
+Fixpoint read_files (v : ivariant) (fs : list (option (list itok))) (s : modst) : modst :=
+  match fs with
+  | [] => s
+  | None :: r => read_files v r (set_err true s)
+  | Some ts :: r =>
+      let '(r1, e, c) := read_index_file v ts (q_reg s) in
+      read_files v r (set_crash c (set_err e (set_reg r1 s)))
+  end.
+
+Definition set_size (t : option tok) (cur : Z) : Z * bool :=
+  match t with
+  | None => (cur, false)
+  | Some _ => match parse_int TSize t with ZVal z => (z, false) | _ => (cur, true) end
+  end.
+
+Definition parse_globals6 (v : ivariant) (c : config6) (s : modst) : modst :=
+  let s1 := read_files v (c6_files c) s in
+  let '(tr, e1) := set_size (c6_traj c) (q_traj s1) in
+  let '(rs, e2) := set_size (c6_restart c) (q_restart s1) in
+  mkModst (q_cvs s1) (q_biases s1) (q_reg s1) (q_named s1) (q_counters s1) tr rs (q_active s1) (q_err s1 || e1 || e2) (q_crash s1).
+
+(* the atom groups of one variable, in order: (names registered so far by this variable, failed, crashed) *)
+Fixpoint parse_groups (gs : list gdesc) (reg : registry) (named : list string) (mine : list string) : list string * bool * bool :=
+  match gs with
+  | [] => (mine, false, false)
+  | g :: r =>
+      let clash := match gd_name g with Some n => existsb (String.eqb n) (named ++ mine) | None => false end in
+      if clash then (mine, true, false)
+      else
+        let mine1 := match gd_name g with Some n => mine ++ [n] | None => mine end in
+        match gd_src g with
+        | GNumbers => parse_groups r reg named mine1
+        | GOfGroup n => if existsb (String.eqb n) (named ++ mine1) then parse_groups r reg named mine1 else (mine1, true, false)
+        | GIndex n => match add_index_group n reg with
+                      | GUError => (mine1, true, false)
+                      | GUCrash => (mine1, true, true)
+                      | GUAtoms _ => parse_groups r reg named mine1
+                      end
+        end
+  end.
+
+(* parse_colvars: a rejected variable is deleted, with the atom groups it registered, and the loop returns *)
+Fixpoint parse_cvs6 (cs : list cvdesc) (s : modst) : modst :=
+  match cs with
+  | [] => s
+  | c :: r =>
+      let '(mine, gfail, crash) := parse_groups (cvd_groups c) (q_reg s) (map fst (q_named s)) [] in
+      if crash then set_crash true (set_err true s)
+      else if gfail || cvd_fails c || existsb (String.eqb (cvd_name c)) (q_cvs s) then set_err true s
+      else parse_cvs6 r (mkModst (q_cvs s ++ [cvd_name c]) (q_biases s) (q_reg s)
+                                 (q_named s ++ map (fun g => (g, cvd_name c)) mine) (q_counters s) (q_traj s) (q_restart s)
+                                 (q_active s ++ [cvd_name c]) (q_err s) (q_crash s))
+  end.
+
+Fixpoint counter (t : string) (cs : list (string * Z)) : Z :=
+  match cs with [] => 0 | (u, n) :: r => if String.eqb t u then n else counter t r end.
+Fixpoint bump (t : string) (cs : list (string * Z)) : list (string * Z) :=
+  match cs with
+  | [] => [(t, 1)]
+  | (u, n) :: r => if String.eqb t u then (u, n + 1) :: r else (u, n) :: bump t r
+  end.
+
+(* the default name: the type keyword followed by the decimal rank *)
+Definition digit (d : Z) : string :=
+  match d with 0 => "0" | 1 => "1" | 2 => "2" | 3 => "3" | 4 => "4" | 5 => "5" | 6 => "6" | 7 => "7" | 8 => "8" | _ => "9" end%string.
+Fixpoint decimal (fuel : nat) (n : Z) : string :=
+  match fuel with
+  | O => ""%string
+  | S f => if n <? 10 then digit n else (decimal f (n / 10) ++ digit (n mod 10))%string
+  end.
+Definition default_name (t : string) (rank : Z) : string := (t ++ decimal 20 rank)%string.
+
+Definition uses_cv (c : string) (b : string * string * list string) : bool := existsb (String.eqb c) (snd b).
+Definition add_new (l extra : list string) : list string := l ++ filter (fun c => negb (existsb (String.eqb c) l)) extra.
+
+(* parse_biases_type: every block counts (bias_count += 1 before init), also a rejected one.  [restore = false] is
+   the code before the repair: deleting the rejected bias releases its variables, and a variable on which no other
+   bias holds a reference is switched off. *)
+Fixpoint parse_btype6 (restore : bool) (bs : list biasdesc) (s : modst) : modst :=
+  match bs with
+  | [] => s
+  | b :: r =>
+      let cs := bump (bd_type b) (q_counters s) in
+      let nm := match bd_name b with Some n => n | None => default_name (bd_type b) (counter (bd_type b) cs) end in
+      let known := forallb (fun c => existsb (String.eqb c) (q_cvs s)) (bd_cvs b) in
+      if q_err s || bd_fails b || negb known || existsb (fun o => String.eqb nm (fst (fst o))) (q_biases s)
+      then
+        let act := if restore then q_active s
+                   else filter (fun c => negb (existsb (String.eqb c) (bd_cvs b)) || existsb (uses_cv c) (q_biases s)) (q_active s) in
+        mkModst (q_cvs s) (q_biases s) (q_reg s) (q_named s) cs (q_traj s) (q_restart s) act true (q_crash s)
+      else parse_btype6 restore r
+             (mkModst (q_cvs s) (q_biases s ++ [(nm, bd_type b, bd_cvs b)]) (q_reg s) (q_named s) cs (q_traj s) (q_restart s)
+                      (add_new (q_active s) (bd_cvs b)) false (q_crash s))
+  end.
+
+Fixpoint parse_biases6 (restore : bool) (by_type : list (list biasdesc)) (s : modst) : modst :=
+  match by_type with
+  | [] => s
+  | bs :: r => parse_biases6 restore r (parse_btype6 restore bs s)
+  end.
+
+(* parse_config: the error state was cleared by the caller; each phase returns when an error is set *)
+Definition parse_config6 (v : ivariant) (restore : bool) (c : config6) (s : modst) : modst :=
+  let s0 := mkModst (q_cvs s) (q_biases s) (q_reg s) (q_named s) (q_counters s) (q_traj s) (q_restart s) (q_active s) false (q_crash s) in
+  let s1 := parse_globals6 v c s0 in
+  if q_err s1 || q_crash s1 then s1
+  else let s2 := parse_cvs6 (c6_cvs c) s1 in
+       if q_err s2 || q_crash s2 then s2
+       else parse_biases6 restore (c6_biases c) s2.
+
+(* colvarmodule::reset(): objects, registries and counters go; the values of the module-level keywords stay *)
+Definition reset6 (s : modst) : modst := mkModst [] [] [] [] [] (q_traj s) (q_restart s) [] false (q_crash s).
+
+Fixpoint run_session6 (v : ivariant) (restore : bool) (cfgs : list (option config6)) (s : modst) : modst :=
+  match cfgs with
+  | [] => s
+  | None :: r => run_session6 v restore r (reset6 s)
+  | Some c :: r => run_session6 v restore r (parse_config6 v restore c s)
+  end.
+
+(* well-formed state: no NULL in the registry, no crash so far, every named group is owned by a defined variable,
+   every active variable and every variable of a bias is defined *)
+Definition reg_wf (r : registry) : Prop := reg_has_null r = false.
